@@ -143,8 +143,7 @@ def canonical_name(ct):
             i = j
         else:
             return ""
-    # defaulted template arguments are printed by the compiler although the source does not spell them:
-    # list / list_tail / list_must< R, S, P = void >, pad< R, P1, P2 = P1 >
+    # defaulted template arguments: list / list_tail / list_must< R, S, P = void >, pad< R, P1, P2 = P1 >
     pos = [0]
 
     def parse():
@@ -159,11 +158,12 @@ def canonical_name(ct):
                 if out[pos[0]] == ",":
                     pos[0] += 1
             pos[0] += 1
-        if args is not None and len(args) == 2:
-            if name in ("list", "list_tail", "list_must"):
-                args.append("void")
-            elif name == "pad":
-                args.append(args[1])
+        if args is not None and len(args) == 3:
+            # a defaulted argument may or may not be printed by the compiler: normalised away on both sides
+            if name in ("list", "list_tail", "list_must") and args[2] == "void":
+                args.pop()
+            elif name == "pad" and args[2] == args[1]:
+                args.pop()
         if args is not None and not args:
             return name + " < >"
         return name if args is None else name + " < " + " , ".join(args) + " >"
